@@ -179,6 +179,9 @@ def check_allocations(res: Result, lcs: List[LaunchCtx], detectors: Dict[str, Se
       seen.add(key)
       nalloc += 1
       tab = cap_tables.UNGUARDED_BY_DESIGN.get((lc.name, al.counter)) or cap_tables.UNGUARDED_BY_DESIGN.get((lc.name.split(".")[0] + ".*", al.counter))
+      if tab is None:
+        # the tabled argument is about the counter; a renamed kernel of the same module keeps it
+        tab = next((v for (kn, c), v in cap_tables.UNGUARDED_BY_DESIGN.items() if c == al.counter and kn.split(".")[0] == lc.name.split(".")[0]), None)
       # O1: a bound on every use
       bounds = []
       unguarded = []
@@ -255,7 +258,7 @@ def check_allocations(res: Result, lcs: List[LaunchCtx], detectors: Dict[str, Se
       # O3: detection
       if "O3" in want:
         dets = detectors.get(al.counter, set())
-        okd = ctext in dets or any(ctext in d_ or d_ in ctext for d_ in dets if d_ != "?") or (lc.name, al.counter) in cap_tables.DETECTION_EXEMPT
+        okd = ctext in dets or any(ctext in d_ or d_ in ctext for d_ in dets if d_ != "?") or (lc.name, al.counter) in cap_tables.DETECTION_EXEMPT or any(c == al.counter and kn.split(".")[0] == lc.name.split(".")[0] for (kn, c) in cap_tables.DETECTION_EXEMPT)
         res.ob(
           okd,
           construct + "|O3",
